@@ -332,7 +332,12 @@ class DiagnosticsRenderer:
         all_lines = self.source.span_lines(span, prefix_lines)
         leading_whitespace = min(len(line) - len(line.lstrip()) for line in all_lines)
         if leading_whitespace > self.MAX_LEADING_WHITESPACE:
-            remove = leading_whitespace - self.OPTIMAL_LEADING_WHITESPACE
+            # Never trim columns that are covered by the span itself
+            remove = min(
+                leading_whitespace - self.OPTIMAL_LEADING_WHITESPACE,
+                span.start.column,
+                span.end.column,
+            )
             all_lines = [line[remove:] for line in all_lines]
             span = span.shift_left(remove)
 
